@@ -1,6 +1,10 @@
-// c18race: built with `go build -race`; runs the real SyncWAL goroutine against concurrent real
-// WriteCSM calls and real queries so that the race detector can report unsynchronised shared variables
-// (haveWALWriter, *shutdownPending).  Search only: a report supports finding F18, its absence proves nothing.
+// c18race: meant to be built with `go build -race` (checks/C18.py does that in --setup / thorough tier).
+// Runs the real SyncWAL goroutine against concurrent real WriteCSM calls and queries, and a real
+// Shutdown, touching the shared flags only through marketstore's own code, so that every race report
+// whose two stacks are inside /repo is a race of the implementation:
+//   haveWALWriter     written at executor/wal.go:722,765 (SyncWAL), read at wal.go:788 (RequestFlush)
+//   *shutdownPending  written at wal.go:804 (Shutdown), read at wal.go:730 (SyncWAL)
+// Search only: a report supports finding F18; silence proves nothing.
 package main
 
 import (
@@ -18,9 +22,9 @@ func main() {
 		fmt.Println("setup:", err)
 		os.Exit(3)
 	}
-	go func() { // writers that start before the loop has announced itself read haveWALWriter concurrently with its write
-		time.Sleep(200 * time.Microsecond)
-	}()
+	in.WAL.IncrementWaitGroup()
+	go in.WAL.SyncWAL(2*time.Millisecond, time.Hour, 1000)
+	time.Sleep(50 * time.Millisecond) // no synchronisation: the loop has long set haveWALWriter, yet nothing orders it
 	var wg sync.WaitGroup
 	for w := 0; w < 4; w++ {
 		wg.Add(1)
@@ -33,8 +37,13 @@ func main() {
 			}
 		}(w)
 	}
-	in.StartLoop(2 * time.Millisecond)
 	wg.Wait()
-	in.Close()
+	done := make(chan struct{})
+	go func() { in.WAL.Shutdown(); close(done) }()
+	select {
+	case <-done:
+	case <-time.After(10 * time.Second):
+	}
 	fmt.Println("c18race: done")
+	os.Exit(0)
 }
